@@ -2,6 +2,7 @@ import Proofs.Lemmas.Interp
 import Proofs.Lemmas.Ecdf
 import Proofs.Lemmas.Spectral
 import Proofs.Lemmas.VarShift
+import Proofs.Lemmas.Bisect
 import Proofs.Audit
 import Mathlib.Analysis.SpecialFunctions.Exp
 import Mathlib.Data.Real.StarOrdered
@@ -9,7 +10,7 @@ import Mathlib.Data.Real.StarOrdered
 /-!
 # C18 — BMCI estimates are the importance-weighted statistics of its database
 
-Property theorems only (helper lemmas: `Proofs/Lemmas/{ListAux,Window,Stats,Interp,Ecdf,Spectral,VarShift}.lean`).
+Property theorems only (helper lemmas: `Proofs/Lemmas/{ListAux,Window,Stats,Interp,Ecdf,Spectral,VarShift,Bisect}.lean`).
 The model is `Model/Bmci.lean`.  All statements hold for an arbitrary linearly ordered
 field `α` (ℚ is what the driver runs, ℝ with `w = exp (-χ²/2)` is the real reading), for
 databases of any size, with duplicates, ties in the projection and in `x`, constant `x`.
@@ -127,6 +128,28 @@ theorem C18_window_spec (db : Db α) (hv : db.Valid) (q : Query α) :
       window_eq_filter db hv.projSorted q hq⟩, fun hq => ⟨?_, window_unrestricted db q hq⟩,
     bounds_le_length db q⟩
   simp [bounds, hq]
+
+/-- **C18_searchsorted_bisect** — numpy's bisection (`bisect`, as `npy_binsearch` does it) on a
+non-decreasing array returns exactly the counts `#{a < v}` / `#{a ≤ v}` that the model uses as
+the meaning of `searchsorted(…, "left"/"right")`; hence the window bounds agree. -/
+theorem C18_searchsorted_bisect :
+    (∀ (a : List α) (v : α), a.Pairwise (· ≤ ·) →
+      ssLeftBin a v = ssLeft a v ∧ ssRightBin a v = ssRight a v) ∧
+    (∀ (db : Db α) (q : Query α), db.Valid → boundsBin db q = bounds db q) := by
+  have key : ∀ (a : List α) (v : α), a.Pairwise (· ≤ ·) →
+      ssLeftBin a v = ssLeft a v ∧ ssRightBin a v = ssRight a v := by
+    intro a v ha
+    constructor
+    · have hd : DownClosed (fun p : α => decide (p < v)) a :=
+        ha.imp (fun {x y} hxy hy => by simp only [decide_eq_true_eq] at *; exact lt_of_le_of_lt hxy hy)
+      exact bisect_eq_countP _ a hd a.length 0 a.length (Nat.zero_le _) List.countP_le_length le_rfl (by omega)
+    · have hd : DownClosed (fun p : α => decide (p ≤ v)) a :=
+        ha.imp (fun {x y} hxy hy => by simp only [decide_eq_true_eq] at *; exact le_trans hxy hy)
+      exact bisect_eq_countP _ a hd a.length 0 a.length (Nat.zero_le _) List.countP_le_length le_rfl (by omega)
+  refine ⟨key, fun db q hv => ?_⟩
+  have hs : (db.rows.map (·.proj)).Pairwise (· ≤ ·) := List.pairwise_map.mpr hv.projSorted
+  unfold boundsBin bounds
+  rw [(key _ q.sl hs).1, (key _ q.su hs).2]
 
 /-- **C18_window_sound** — pruning is sound.  Hypotheses: the bounds are those of
 `__find_hits`, `s_l = y_proj - rad - tol`, `s_u = y_proj + rad + tol` with
@@ -459,6 +482,6 @@ example : Antitone (fun c : ℚ => -c / 2) := fun a b h => by simp only; linarit
 end examples
 
 assert_axioms C18_predict_formula_window C18_predict_formula C18_predict_formula_exp
-  C18_perm_invariant C18_window_spec C18_window_sound C18_spectral_inequality
+  C18_perm_invariant C18_window_spec C18_searchsorted_bisect C18_window_sound C18_spectral_inequality
   C18_excluded_weight_small
   C18_pruned_estimate_bound C18_xsort_window C18_cdf_monotone_ends_one C18_cdf_is_weighted_ecdf C18_quantiles_monotone_in_range C18_nan_when_no_weight
